@@ -386,7 +386,7 @@ def path_cases(ctx):
              "/var/tmp", "/var/tmp/", "/var/tmp/.", "/var/tmp/../tmp/x", "n" * 300 + ".docx", "a.zip!/" + "b" * 300 + ".docx",
              "/var/tmp/" + "c" * 256, "/var/tmp/" + "c" * 255, "\u00fcber/stra\u00dfe.odt", "\ud800.docx", "x\x00y.docx", "/etc/passwd/x",
              "/proc/self/fd/999999", "tools", "tools/props/c04.py", "./check", ".hidden", "dir/.hidden", "dir/name.", "a/./b/../c.txt//"]
-    for _ in range(ctx.n(250, 2500)):
+    for _ in range(ctx.n(150, 2500)):
         k = rng.randint(0, 4)
         p = rng.choice(roots) + "/".join(rng.choice(comps) for _ in range(k)) + rng.choice(["", "", "/", "/.", "//"])
         paths.append(p)
@@ -1795,7 +1795,7 @@ def run_meta(ctx, tb):
 
     sv = lambda *xs: pair(*[cstr(x) for x in xs])
     jobs = []
-    n = ctx.n(120, 1200)
+    n = ctx.n(80, 1200)
     for name, mod, tags_name in (("docx", dx, "docx_tags"), ("pptx", px, "pptx_tags")):
         tags = [mod._DC_TITLE, mod._DC_CREATOR, mod._DC_SUBJECT, mod._CP_KEYWORDS, mod._DC_DESCRIPTION, mod._CP_CATEGORY]
         terms, infos = [], []
@@ -1943,7 +1943,7 @@ def run_summary(ctx, tb):
         return f"(OOther {coq_bool(bool(v))} {cstr(str(v))})"
 
     records = []
-    for k in range(ctx.n(100, 1200)):
+    for k in range(ctx.n(70, 1200)):
         records.append((rng.choice(cps), {f: rng.choice(vals) for f in fields}, "generated"))
     # the records olefile reads from the fixtures
     for f in fixture_files():
